@@ -58,6 +58,10 @@ pub struct ReplayFile {
     pub minimisation_trials: usize,
     pub reproducible: bool,
     pub plan: Plan,
+    /// divergence across processes: the other process's schedule; `replay` runs `plan` and
+    /// `plan_b` in two fresh processes and compares the outputs of their last steps
+    #[serde(default)]
+    pub plan_b: Option<Plan>,
     /// printed macro input of the violating request, for humans
     pub input: String,
     #[serde(default)]
@@ -560,7 +564,8 @@ fn cross_session_violation(
         ),
         thread: p2.steps[step2].thread.clone(),
         policy: p2.steps[step2].policy.clone(),
-        earlier_step: None,
+        earlier_step: Some(step1),
+        earlier_session: Some(s1),
         text_a: String::new(),
         text_b: String::new(),
     })
@@ -636,6 +641,7 @@ fn attribute_crash(exe: &Path, o: &DriveOpts, idx: u64, pool: &Pool) -> Option<(
             thread: step.thread.clone(),
             policy: step.policy.clone(),
             earlier_step: None,
+            earlier_session: None,
             text_a: String::new(),
             text_b: String::new(),
         },
@@ -673,15 +679,33 @@ fn minimise_and_write(
         minimisation_trials: 0,
         reproducible: false,
         plan: prefix,
+        plan_b: None,
         input: v.req.display(),
         output_a: v.text_a.clone(),
         output_b: v.text_b.clone(),
         notes: vec![],
     };
     if class == "diverge-across-processes" {
-        // two processes are needed; the replay is the single request, run twice by `replay`
-        rf.plan = Plan::single(v.req.clone());
-        rf.notes.push("cross-process divergence: `replay` executes the plan in two fresh processes and compares".into());
+        // two processes are needed: this session's prefix and the other session's prefix
+        if let (Some(s1), Some(step1)) = (v.earlier_session, v.earlier_step) {
+            let (p1, _) = plan_session(&session_params(o, s1), pool);
+            let mut b = Plan {
+                reqs: p1.reqs.clone(),
+                steps: p1.steps[..=step1.min(p1.steps.len() - 1)].to_vec(),
+            };
+            b.compact();
+            rf.plan_b = Some(b);
+        }
+        rf.notes.push("cross-process divergence: `replay` executes `plan` and `plan_b` in two fresh processes and compares the outputs of their last steps".into());
+        // cheap minimisation: the last request alone in both processes, if that still differs
+        let single = Plan::single(v.req.clone());
+        let mut ctx = crate::minimise::Ctx::new(&o.out.join("tmp"), 10);
+        if let (Some(a), Some(b)) = (ctx.run_child(&single, 30), ctx.run_child(&single, 30)) {
+            if a.step_log != b.step_log {
+                rf.plan = single.clone();
+                rf.plan_b = Some(single);
+            }
+        }
     }
     let name = format!("C16-{}-{}.json", v.kind, &digest(&format!("{class}{}", v.req.id()))[..12]);
     let path = o.replays.join(&name);
@@ -692,7 +716,8 @@ fn minimise_and_write(
     // minimise in a child (bounded wall-clock), then verify the result replays
     let min_out = o.out.join("tmp").join(format!("{name}.min"));
     std::fs::create_dir_all(o.out.join("tmp")).ok();
-    if class != "diverge-across-processes" {
+    let pair_is_single = rf.plan_b.as_ref().map(|b| b.steps.len() == 1 && rf.plan.steps.len() == 1).unwrap_or(false);
+    if !(class == "diverge-across-processes" && (pair_is_single || rf.plan_b.is_none())) {
         let mut child = Command::new(exe)
             .arg("minimise")
             .arg("--replay")
